@@ -111,12 +111,19 @@ def r13a(ctx, run):
     I32, I64 = Variant("Ty::IInt", {"0": 32}), Variant("Ty::IInt", {"0": 64})
     name = Term("name")
 
+    class MemberObj(Obj):
+        def __eq__(self, o):
+            return isinstance(o, Obj) and self.fields == o.fields
+
+        def __hash__(self):
+            return 1
+
     def mk(kind, uid, under):
         if kind == "Distinct":
             return Variant("Ty::Distinct", {"uid": uid, "sub_ty": under})
         if kind == "EnumVariant":
             return Variant("Ty::EnumVariant", {"enum_uid": 50, "variant_name": name, "uid": uid, "sub_ty": under, "discriminant": 0})
-        return Variant("Ty::ConcreteStruct", {"uid": uid, "members": [Term("member", "a", repr(under))]})
+        return Variant("Ty::ConcreteStruct", {"uid": uid, "members": [MemberObj("MemberTy", name=Term("a"), ty=under)]})
 
     def expect(desc, key, a, b, want, why, ln=None):
         try:
@@ -147,6 +154,12 @@ def r13a(ctx, run):
         outer = mk("Distinct", 2, inner)
         expect("a distinct of a %s where that %s is expected" % (kind.lower(), kind.lower()), "nominal-over-nominal:%s:down" % kind, outer, inner, False,
                "a value of the outer nominal type is accepted as the type it is declared on top of")
+        # ... and behind a pointer / inside a slice: `^Point` is not a `^Pixel` (`Pixel :: distinct Point`) either
+        for cname, wrap in (("^T", lambda t: Variant("Ty::Pointer", {"mutable": False, "sub_ty": t})), ("[]T", lambda t: Variant("Ty::Slice", {"sub_ty": t}))):
+            expect("%s of a %s where %s of a distinct of it is expected" % (cname, kind.lower(), cname), "nominal-over-nominal:%s:behind %s" % (kind, cname), wrap(inner), wrap(outer), False,
+                   "behind a pointer (or in a slice) a value of one nominal type is accepted as a different nominal type declared on top of it")
+            expect("%s of a distinct of a %s where %s of that %s is expected" % (cname, kind.lower(), cname, kind.lower()), "nominal-over-nominal:%s:down behind %s" % (kind, cname),
+                   wrap(outer), wrap(inner), False, "behind a pointer (or in a slice) a value of the outer nominal type is accepted as the type it is declared on top of")
     # variant -> its own enum only
     v = mk("EnumVariant", 1, I32)
     own = Variant("Ty::Enum", {"uid": 50, "variants": [v, mk("EnumVariant", 2, I64)]})
